@@ -32,6 +32,9 @@ type Violation struct {
 type Scenario struct {
 	Name  string
 	Props []string // properties whose check runs this scenario
+	// Weight is the scenario's share of the run indices of a property's
+	// check (absent = 1).
+	Weight map[string]int
 	// Run draws an instance and its schedule from the tape, simulates and
 	// evaluates the oracles.
 	Run func(t *simrt.Tape, rc *RunCtx) *Violation
@@ -322,7 +325,9 @@ func scenariosFor(prop string, only string) []*Scenario {
 		}
 		for _, p := range s.Props {
 			if p == prop {
-				out = append(out, s)
+				for i := 0; i < max(1, s.Weight[p]); i++ {
+					out = append(out, s)
+				}
 			}
 		}
 	}
